@@ -27,7 +27,9 @@ impl U31x8 {
     pub fn to_simd_vec(data: &[U31]) -> Vec<Self> {
         let mut result = vec![];
         for xs in data.chunks(SIMD_SIZE) {
-            let mut array = [U31::default(); SIMD_SIZE];
+            // The lanes of an incomplete block must not match any feature. Zero is the id of the
+            // BOS/EOS feature, so the largest value (i.e., INVALID_FEATURE_ID) is used.
+            let mut array = [U31::MAX; SIMD_SIZE];
             array[..xs.len()].copy_from_slice(xs);
 
             #[cfg(not(target_feature = "avx2"))]
